@@ -12,7 +12,7 @@ import (
 	"verif/lib/m16"
 )
 
-var ignoreKnown bool
+var witnessFor string
 
 func jv(v m16.JV) *m16.JV { return &v }
 
@@ -59,8 +59,8 @@ func init() {
 	for _, w := range witnesses {
 		w := w
 		harness.RegisterWitness(w.id, func() (bool, string) {
-			ignoreKnown = true
-			defer func() { ignoreKnown = false }()
+			witnessFor = w.id
+			defer func() { witnessFor = "" }()
 			var o harness.Outcome
 			if w.call != nil {
 				o = checkCall(*w.call)
